@@ -392,6 +392,19 @@ func buildDefIndex(info *types.Info, fd *ast.FuncDecl) *defIndex {
 		}
 		return info.Uses[id]
 	}
+	// parameters and receiver are defined by the call: any assignment makes them multiply defined
+	for _, fl := range []*ast.FieldList{fd.Recv, fd.Type.Params, fd.Type.Results} {
+		if fl == nil {
+			continue
+		}
+		for _, f := range fl.List {
+			for _, nm := range f.Names {
+				if o := info.Defs[nm]; o != nil {
+					di.defs[o] = append(di.defs[o], nil)
+				}
+			}
+		}
+	}
 	ast.Inspect(fd, func(n ast.Node) bool {
 		switch x := n.(type) {
 		case *ast.AssignStmt:
@@ -408,7 +421,12 @@ func buildDefIndex(info *types.Info, fd *ast.FuncDecl) *defIndex {
 			} else {
 				for _, l := range x.Lhs {
 					if o := obj(l); o != nil {
-						di.defs[o] = append(di.defs[o], nil)
+						if len(x.Rhs) == 1 && (x.Tok == token.ASSIGN || x.Tok == token.DEFINE) {
+							// v, ok := f(a): provenance of every result flows from the call
+							di.defs[o] = append(di.defs[o], x.Rhs[0])
+						} else {
+							di.defs[o] = append(di.defs[o], nil)
+						}
 					}
 				}
 			}
@@ -424,6 +442,17 @@ func buildDefIndex(info *types.Info, fd *ast.FuncDecl) *defIndex {
 					di.defs[o] = append(di.defs[o], nil)
 				}
 				// `var x T` without value: zero value, no definition recorded
+			}
+		case *ast.TypeSwitchStmt:
+			// switch v := e.(type): the per-clause implicit object derives from e
+			if as, ok := x.Assign.(*ast.AssignStmt); ok && len(as.Rhs) == 1 {
+				if ta, ok := unparen(as.Rhs[0]).(*ast.TypeAssertExpr); ok {
+					for _, cc := range x.Body.List {
+						if o := info.Implicits[cc]; o != nil {
+							di.defs[o] = append(di.defs[o], ta.X)
+						}
+					}
+				}
 			}
 		case *ast.RangeStmt:
 			for _, l := range []ast.Expr{x.Key, x.Value} {
@@ -489,7 +518,13 @@ func (di *defIndex) rootOf(info *types.Info, e ast.Expr, depth int) types.Object
 			return di.rootOf(info, x.Args[0], depth+1)
 		}
 		if s, ok := unparen(x.Fun).(*ast.SelectorExpr); ok {
-			return di.rootOf(info, s.X, depth+1)
+			if _, isPkg := info.Uses[identOf(s.X)].(*types.PkgName); !isPkg {
+				return di.rootOf(info, s.X, depth+1)
+			}
+		}
+		// plain function: provenance flows from the first argument
+		if len(x.Args) > 0 {
+			return di.rootOf(info, x.Args[0], depth+1)
 		}
 	case *ast.StarExpr:
 		return di.rootOf(info, x.X, depth+1)
